@@ -82,10 +82,11 @@ Definition outer_edges (xs : list Q) : Q * Q :=
 Definition bin_of (lo hi : Q) (nb : nat) (x : Q) : nat :=
   let p := Qfloor ((x - lo) * inject_Z (Z.of_nat nb) / (hi - lo)) in
   if (Z.of_nat nb <=? p)%Z then (nb - 1)%nat else Z.to_nat p.
-Definition count_bin (lo hi : Q) (nb : nat) (xs : list Q) (i : nat) : Z :=
-  fold_right (fun x acc => if (bin_of lo hi nb x =? i)%nat then (acc + 1)%Z else acc) 0%Z xs.
+Definition count_bin (bs : list nat) (i : nat) : Z :=
+  fold_right (fun b acc => if (b =? i)%nat then (acc + 1)%Z else acc) 0%Z bs.
 Definition hist (xs : list Q) (nb : nat) : list Z :=
-  let '(lo, hi) := outer_edges xs in map (count_bin lo hi nb xs) (seq 0 nb).
+  let '(lo, hi) := outer_edges xs in
+  let bs := map (bin_of lo hi nb) xs in map (count_bin bs) (seq 0 nb).
 Definition hist_edges (xs : list Q) (nb : nat) : list Q :=
   let '(lo, hi) := outer_edges xs in
   map (fun i => lo + inject_Z (Z.of_nat i) * (hi - lo) / inject_Z (Z.of_nat nb)) (seq 0 (S nb)).
@@ -127,7 +128,8 @@ Definition mode_rep (xs : list Q) (conf : Q) : rep :=
     Faithful as long as no denominator contains a division (c / inf = 0 would be finite again). *)
 Inductive expr :=
 | Var (i : nat) | Cst (c : Q) | Neg (a : expr)
-| Add (a b : expr) | Sub (a b : expr) | Mul (a b : expr) | Div (a b : expr).
+| Add (a b : expr) | Sub (a b : expr) | Mul (a b : expr) | Div (a b : expr)
+| SqrtSq (a : expr).      (* sqrt(a) * sqrt(a): a where a >= 0, nan otherwise *)
 
 Definition obind2 (a b : option Q) (f : Q -> Q -> option Q) : option Q :=
   match a, b with Some x, Some y => f x y | _, _ => None end.
@@ -140,18 +142,19 @@ Fixpoint eval (e : expr) (x : list Q) : option Q :=
   | Sub a b => obind2 (eval a x) (eval b x) (fun u v => Some (Qred (u - v)))
   | Mul a b => obind2 (eval a x) (eval b x) (fun u v => Some (Qred (u * v)))
   | Div a b => obind2 (eval a x) (eval b x) (fun u v => if Qeq_bool v 0 then None else Some (Qred (u / v)))
+  | SqrtSq a => match eval a x with Some v => if Qle_bool 0 v then Some v else None | None => None end
   end.
 Fixpoint has_div (e : expr) : bool :=
   match e with
   | Var _ | Cst _ => false
-  | Neg a => has_div a
+  | Neg a | SqrtSq a => has_div a
   | Add a b | Sub a b | Mul a b => has_div a || has_div b
   | Div _ _ => true
   end.
 Fixpoint wf_expr (e : expr) : bool :=
   match e with
   | Var _ | Cst _ => true
-  | Neg a => wf_expr a
+  | Neg a | SqrtSq a => wf_expr a
   | Add a b | Sub a b | Mul a b => wf_expr a && wf_expr b
   | Div a b => wf_expr a && wf_expr b && negb (has_div b)
   end.
@@ -354,7 +357,8 @@ Section Machine.
         let k := length (srcs s) in
         let rows := map (fun j => normal (ncalls s + j) N) (seq 0 k) in
         let d := compute_samples f C (srcs s) rows N in
-        (set_raw_new s (d_samples d) (ncalls s + k) (d_unsup d),
+        (* results buffered for an earlier (empty) sample set are dropped, except the custom pair *)
+        (set_caches (set_raw_new s (d_samples d) (ncalls s + k) (d_unsup d)) None None (c_custom s),
          (d_warn_pd d, warn10 (length (d_samples d)) (gsz s)))
     | _ => (s, nowarn)
     end.
@@ -401,7 +405,7 @@ Section Machine.
     | ReadValue => let '(s1, r, w) := evaluate s in (s1, ORead (r_value r), w)
     | ReadError => let '(s1, r, w) := evaluate s in (s1, OErr (r_error r), w)
     | Recalc => (clear s, ONone, nowarn)
-    | SetGlobalSize g => (set_gsz s g, ONone, nowarn)
+    | SetGlobalSize g => if (0 <? g)%Z then (set_gsz s g, ONone, nowarn) else (s, OExn ValueError, nowarn)
     | SetSrc i v e => (set_srcs s (upd (srcs s) i (mksrc v e (s_std (nth i (srcs s) (mksrc 0 0 0))))), ONone, nowarn)
     | Mutate j i x =>
         (match nth_error (handed s) j with
@@ -421,23 +425,28 @@ Section Machine.
               else if negb (Qle_bool (numq a) (numq b)) then (s1, OExn ValueError, w)
               else (set_caches (set_xr s1 (Some (numq a, numq b))) None None None, ONone, w)
           end
-      | UseMode c =>
-          let s2 := set_strat s1 Mode in                (* the strategy is set first *)
-          if truthy c then let '(s3, e) := do_set_conf s2 c in (s3, out_exn e, w) else (s2, ONone, w)
+      | UseMode c =>                                   (* the confidence is validated first *)
+          if truthy c then
+            let '(s2, e) := do_set_conf s1 c in
+            match e with
+            | Some x => (s2, OExn x, w)
+            | None => (set_strat s2 Mode, ONone, w)
+            end
+          else (set_strat s1 Mode, ONone, w)
       | UseMeanStd => (set_strat s1 MeanStd, ONone, w)
-      | UseCustom v e =>
-          let s2 := set_strat s1 Custom in              (* the strategy is set BEFORE validation *)
-          if negb (is_real v) then (s2, OExn TypeError, w)
-          else if negb (is_real e) then (s2, OExn TypeError, w)
-          else if negb (Qle_bool 0 (numq e)) then (s2, OExn ValueError, w)
-          else (set_caches s2 (c_mean s2) (c_mode s2) (Some (mkrep (Some (numq v)) (EExact (numq e)))), ONone, w)
+      | UseCustom v e =>                                (* validation first; a rejected request changes nothing *)
+          if negb (is_real v) then (s1, OExn TypeError, w)
+          else if negb (is_real e) then (s1, OExn TypeError, w)
+          else if negb (Qle_bool 0 (numq e)) then (s1, OExn ValueError, w)
+          else let s2 := set_strat s1 Custom in
+               (set_caches s2 (c_mean s2) (c_mode s2) (Some (mkrep (Some (numq v)) (EExact (numq e)))), ONone, w)
       | SetSampleSize k =>
           match k with
           | PInt z => if (z <? 0)%Z then (s1, OExn ValueError, w) else (clear (set_own s1 z), ONone, w)
           | PBool b => (clear (set_own s1 (if b then 1 else 0)%Z), ONone, w)   (* bool is an int; outside the domain *)
           | _ => (s1, OExn ValueError, w)
           end
-      | ResetSampleSize => (set_own s1 0%Z, ONone, w)   (* nothing is cleared *)
+      | ResetSampleSize => (clear (set_own s1 0%Z), ONone, w)
       | Samples => (hand_out s1 (raw s1), OSamples (length (arrays s1)) (raw s1), w)
       | Inspect => (s1, OInfo (eff_size s1) (conf s1) (strat s1) (xr s1), w)
       | _ => (s1, ONone, w)
